@@ -1,9 +1,11 @@
 import AsherahVerif.Driver.Fmt
 open AsherahVerif.Driver
 
-/- model driver executable of engine `fmt` (C18): `md_fmt` checks a trace, `md_fmt answer` is the
-reference ENCODER answering the harness' build requests (direction "reference writes / SDK reads"). -/
+/- model driver executable of engine `fmt` (C18): `md_fmt` checks a trace of go/cmd/hxfmt,
+`md_fmt answer` is the reference ENCODER answering the harness' build requests (direction
+"reference writes / SDK reads"). -/
 def main (args : List String) : IO UInt32 := do
   match args with
   | [] => runEngine FmtEngine.engine; return 0
+  | ["answer"] => FmtEngine.answerLoop (← IO.getStdin) (← IO.getStdout); return 0
   | _ => IO.eprintln "usage: md_fmt [answer]"; return 2
